@@ -237,6 +237,36 @@ def run(ctx, res):
         res.ok("ISOLATION", "new_session spawns a dedicated session_worker thread per session")
     else:
         res.bad("ISOLATION", "nrepl::Connection::new_session # spawn", "new_session does not spawn a session_worker per session", ns.loc())
+    # FRESH-ID: two live sessions must never share an id (the second insert would replace the first session's entry
+    # and both clients would talk to one Env). The id must come from a counter that only grows, not from the
+    # current number of sessions.
+    ins = [(bi, t) for bi, t in ns.calls() if (M.callee_name(t) or "").endswith("HashMap::<K, V, S, A>::insert")
+           and ns.root_of(t["args"][0], through_named=True)[0] == "place"
+           and ns.field_path(ns.root_of(t["args"][0], through_named=True)[1])[-1:] == ["sessions"]]
+    res.floor("ISOLATION", "sessions.insert in new_session", len(ins), 1)
+    for bi, t in ins:
+        k = ns.root_of(t["args"][1], through_named=True)
+        for _ in range(3):
+            if k[0] == "call" and (M.callee_name(k[2]) or "").endswith(("::clone", "::to_owned", "::to_string")) and k[2]["args"]:
+                k = ns.root_of(k[2]["args"][0], through_named=True)
+            else:
+                break
+        gen = P.funcs.get(M.callee_name(k[2]) or "") if k[0] == "call" else None
+        okid = False
+        why = "the key is not produced by a local id generator"
+        if gen is not None:
+            incs = [st for b in gen.blocks for st in b["stmts"] if st["s"] == "assign" and st["rv"]["k"] == "binop"
+                    and st["rv"]["op"] in ("AddWithOverflow", "Add") and (M.op_const(st["rv"]["b"]) or {}).get("v") == 1]
+            mut_counter = any(a.startswith("&mut u") for a in (k[2].get("argtys") or []))
+            uses_len = any((M.callee_name(tt) or "").endswith("::len") for _, tt in gen.calls())
+            okid = bool(incs) and mut_counter and not uses_len
+            why = "increments=%d, takes &mut counter=%s, derives from len()=%s" % (len(incs), mut_counter, uses_len)
+        if okid:
+            res.ok("ISOLATION", "new_session: the session id comes from a monotonically incremented counter (FRESH-ID)")
+        else:
+            res.bad("ISOLATION", "nrepl::Connection::new_session # id-not-fresh",
+                    "the session id is not drawn from a counter that only grows (%s): after a session is closed a new "
+                    "session can reuse a live session's id and replace it" % why, ns.loc(t.get("fn_span")))
 
     # ---- FLUSHER -------------------------------------------------------------------
     fl = [p for p in P.funcs if p.startswith("nrepl::spawn_output_flusher::{closure")]
@@ -250,6 +280,20 @@ def run(ctx, res):
     fob = P.require_fn("nrepl::flush_output_buffer")
     if done_blocks(fob):
         res.bad("FLUSHER", "nrepl::flush_output_buffer # done", "flush_output_buffer builds a `done` message", fob.loc())
+    # ATOMIC-TAKE: the evaluator appends to the shared buffer concurrently with the flusher. The text sent must be
+    # removed from the buffer in the same critical section in which it is read: one lock per call, content obtained
+    # by mem::take / replace / drain / split_off under that lock (not clone-now, clear-later).
+    locks = [bi for bi, t in fob.calls() if (M.callee_name(t) or "").endswith("Mutex::<T>::lock")]
+    rng = D.path_event_range(fob, 0, set(returns(fob)), set(locks))
+    takers = [bi for bi, t in fob.calls() if (M.callee_name(t) or "").endswith(("mem::take", "mem::replace", "::drain", "::split_off", "mem::swap"))]
+    clears = [bi for bi, t in fob.calls() if (M.callee_name(t) or "").endswith(("::clear", "::truncate"))]
+    if rng is not None and rng[1] == 1 and takers and not clears:
+        res.ok("FLUSHER", "flush_output_buffer: one lock per call and the captured text is taken out under it (ATOMIC-TAKE)")
+    else:
+        res.bad("FLUSHER", "nrepl::flush_output_buffer # non-atomic-take",
+                "flush_output_buffer does not remove the captured text in the critical section that reads it (locks per path=%s, "
+                "take/drain calls=%d, clear calls=%d): output written between the read and the clear is lost" % (rng, len(takers), len(clears)),
+                fob.loc())
     res.ok("FLUSHER", "flusher closures (%d) and flush_output_buffer build no status message; flusher waits on the stop channel" % len(fl))
     res.floor("FLUSHER", "flusher closures", len(fl), 1)
 
